@@ -10,13 +10,15 @@ K = dict(
     GARBAGE=48, ACK_FREQ=49, DGRAM_RECV_BUF=50, DGRAM_SEND_BUF=51, MAX_TIME=52, SERVER_STREAMS=53,
     PACING_BPS=54, DUP_MASK=55, CID_LEN=56, CID_LIFETIME_MS=57, MIGRATION_ALLOWED=58, RESET_AT_BYTES=59,
     STOP_AT_BYTES=60, EARLY_POLL=61, DGRAM_DROP=62, NEW_RWND_AT=63, NEW_RWND=64, SERVER_RWND=65,
-    LINK_MTU_AT=66, LINK_MTU2=67, DROP_MASK_DIR=68, FAIR_RUN=69, RECONNECT=70, SERVER_EARLY=71, HOSTILE_AT=72, HOSTILE_KIND=73, HOSTILE_SIDE=74, READ_SERIAL=75, PAD_TO_MTU=76, DGRAM_INTERVAL=77, DGRAM_ALT=78, EARLY_STOP=79, NO_REDO=80, DGRAM_START=81, HOSTILE_TP=82, HOSTILE_TP_SIDE=83, CLIENT_IDLE_MS=84, SERVER_IDLE2_MS=85, FORGET_AT=86, MIGRATE_SILENT=87, RETRY2=88, BUSY_NEAR_US=89, CLOSE_ON_TIMER=90, CLOSE_ON_TIMER_N=91, NEW_MAXSTREAMS_AT=92, NEW_MAX_BIDI=93, NEW_MAX_UNI=94, RESET_FORGE=95, CLOSE_REASON_LEN=96, SPOOF_FRESH_AT=97, SPOOF_FRESH_BLACKOUT=98, PREFERRED_ADDR=99, DGRAM_SIZE2=100,
+    LINK_MTU_AT=66, LINK_MTU2=67, DROP_MASK_DIR=68, FAIR_RUN=69, RECONNECT=70, SERVER_EARLY=71, HOSTILE_AT=72, HOSTILE_KIND=73, HOSTILE_SIDE=74, READ_SERIAL=75, PAD_TO_MTU=76, DGRAM_INTERVAL=77, DGRAM_ALT=78, EARLY_STOP=79, NO_REDO=80, DGRAM_START=81, HOSTILE_TP=82, HOSTILE_TP_SIDE=83, CLIENT_IDLE_MS=84, SERVER_IDLE2_MS=85, FORGET_AT=86, MIGRATE_SILENT=87, RETRY2=88, BUSY_NEAR_US=89, CLOSE_ON_TIMER=90, CLOSE_ON_TIMER_N=91, NEW_MAXSTREAMS_AT=92, NEW_MAX_BIDI=93, NEW_MAX_UNI=94, RESET_FORGE=95, CLOSE_REASON_LEN=96, SPOOF_FRESH_AT=97, SPOOF_FRESH_BLACKOUT=98, PREFERRED_ADDR=99, DGRAM_SIZE2=100, NEW_MAXSTREAMS_SIDE=101,
     CLEAN=900,   # monitor-only flag: the link is loss-free, in-order, constant-delay
     TWIN=901,    # twin-run variant (C20)
     DELIVER_SMALL=903,
     ALL_STREAMS_SEEN=904,
     FOLLOW_ONE=905,
-    CID_ECHO_STRICT=906,  # monitor-only (C14): the mutated transport parameters break the CID echo and must be rejected
+    CID_ECHO_STRICT=906,
+    EXPECT_SERVER_STREAMS=908,  # monitor-only (MonC02): the server application must have opened all SERVER_STREAMS streams
+  # monitor-only (C14): the mutated transport parameters break the CID echo and must be rejected
   # monitor-only (C15): one genuine datagram from the new address obliges the server to follow
   # monitor-only: loss-free path, every stream the client opened reaches the server application  # monitor-only: every accepted small datagram must be delivered (loss-free path)
 )
